@@ -1,8 +1,13 @@
 /- Props/C02.lean — what is provable about back-end agreement on the model side: both back ends lay composite
-   values out with the same algorithm at their respective pointer sizes, and the shared source semantics wraps
-   at the declared width independently of the target. -/
+   values out with the same algorithm at their respective pointer sizes, the shared source semantics wraps
+   at the declared width independently of the target, and — over the two REGENERATED instruction-selection tables
+   (`Gen.qbeSel`: the IL the native back end emits, `Gen.wasmSel`: the stack code the wasm back end emits, one row per
+   integer operator x type and per integer cast) — the two back ends compute the same value for every operand. -/
 import FerretVerif.Props.C18
 import FerretVerif.Core.Eval
+import FerretVerif.Props.C01
+import FerretVerif.Proofs.WasmSem
+import FerretVerif.Gen.WasmSel
 namespace FerretVerif.C02
 open FerretVerif.Layout
 
@@ -18,4 +23,56 @@ theorem wrap_in_range_unsigned (bits : Nat) (v : Int) : 0 ≤ Core.wrapInt bits 
     have := Nat.pow_pos (n := bits) (by decide : 0 < 2); omega
   simp only [Bool.false_and, Bool.false_eq_true, if_false]
   exact ⟨Int.emod_nonneg _ (by omega), Int.emod_lt_of_pos _ hp⟩
+/-! ### instruction selection: the two regenerated tables agree
+
+`lib/wasmsel.py` decodes the module the current compiler emits for the probe program of `lib/qbesel.py` and writes each
+function's straight-line block into `Gen/WasmSel.lean`.  `Model/WasmSem.lean` gives that stack code a meaning on i32/i64 bit
+patterns and turns it symbolically into three-address code (`toSsa`, proved sound in `Proofs/WasmSem.lean`); a row is of a proved
+shape when that three-address code is the sequence `QbeSem.expectedSeq` names — the same sequences the native rows are checked
+against — so both back ends are proved against ONE specification, `QbeSem.rowSpec`. -/
+section Selection
+open FerretVerif.QbeSem FerretVerif.WasmSem
+
+theorem wasm_sel_table_known_shapes : ∀ r ∈ Gen.wasmSel, wrowOk r = true := by decide +kernel
+
+theorem wasm_sel_table_well_formed :
+    ∀ r ∈ Gen.wasmSel, r.src ∈ legalTys ∧ r.dst ∈ legalTys ∧ (r.kind ≠ .cast → r.dst = r.src) ∧
+      r.nparams = (if r.kind = .bin ∨ r.kind = .cmp then 2 else 1) := by decide +kernel
+
+def hasWRow (k : Kind) (op : String) (s d : QbeSem.Ty) : Bool := Gen.wasmSel.any fun r => r.kind == k && r.op == op && r.src == s && r.dst == d
+
+theorem wasm_sel_table_complete :
+    (∀ t ∈ legalTys, ∀ op ∈ ["add", "sub", "mul", "div", "rem"], hasWRow .bin op t t = true) ∧
+    (∀ t ∈ legalTys, ∀ op ∈ cmpOps, hasWRow .cmp op t t = true) ∧
+    (∀ t ∈ signedTys, hasWRow .neg "neg" t t = true) ∧
+    (∀ s ∈ legalTys, ∀ d ∈ legalTys, s ≠ d → hasWRow .cast "cast" s d = true) := by decide +kernel
+
+/-- every row of the wasm table computes its specification, for all in-range operands -/
+theorem wasm_sel_table_correct (r : WRow) (hr : r ∈ Gen.wasmSel) (args : List Int) (hlen : args.length = r.nparams)
+    (hin : ∀ a ∈ args, r.src.inRange a) (v : Nat) (hv : r.spec args = some v) :
+    wrun r.code (args.map (canon r.src)) r.nlocals = some v :=
+  have wf := wasm_sel_table_well_formed r hr
+  wrow_correct r (wasm_sel_table_known_shapes r hr) wf.1 wf.2.1 wf.2.2.1 args hlen hin v hv
+
+/-- AGREEMENT: for the same operator (or cast) on the same types, the IL the native back end emits and the stack code the wasm
+    back end emits yield the same temporary — the canonical one of the source-level result — on every operand tuple for which
+    the source-level operation has a value -/
+theorem backends_agree_on_selection (q : Row) (hq : q ∈ Gen.qbeSel) (w : WRow) (hw : w ∈ Gen.wasmSel)
+    (hk : w.kind = q.kind) (ho : w.op = q.op) (hs : w.src = q.src) (hd : w.dst = q.dst)
+    (args : List Int) (hlen : args.length = w.nparams) (hin : ∀ a ∈ args, q.src.inRange a) (v : Nat) (hv : rowSpec q args = some v) :
+    exec (args.map (canon q.src)) [] q.seq = some v ∧ wrun w.code (args.map (canon q.src)) w.nlocals = some v := by
+  refine ⟨C01.sel_table_correct q hq args hin v hv, ?_⟩
+  have hspec : w.spec args = rowSpec q args := by
+    obtain ⟨k, o, s, d, sq⟩ := q
+    simp only at hk ho hs hd
+    simp only [WRow.spec, hk, ho, hs, hd]; rfl
+  have := wasm_sel_table_correct w hw args hlen (by rw [hs]; exact hin) v (by rw [hspec]; exact hv)
+  rw [hs] at this; exact this
+
+/-- non-vacuity: the u8 multiplication rows exist in both tables and 255 * 255 has the value 1 -/
+example : hasWRow .bin "mul" ⟨8, false⟩ ⟨8, false⟩ = true ∧ C01.hasRow .bin "mul" ⟨8, false⟩ ⟨8, false⟩ = true ∧
+    rowSpec ⟨.bin, "mul", ⟨8, false⟩, ⟨8, false⟩, []⟩ [255, 255] = some 1 := by decide
+
+end Selection
+
 end FerretVerif.C02
